@@ -153,8 +153,13 @@ class Facts:
         self.traits = {s["key"]: s for s in raw["traits"]}
         self.impls = raw["impls"]
         self._by_name = {}
+        self._closures = {}
         for k, b in self.fns.items():
             self._by_name.setdefault(b.name, []).append(b)
+            if b.raw.get("owner"):
+                self._closures.setdefault(b.raw["owner"], []).append(b)
+        # functions whose body merely builds a coroutine object (async fn / async block wrappers)
+        self.async_fns = set(b.raw.get("parent") for b in self.built.values())
 
     # ---- lookup helpers
     def fn(self, key):
@@ -198,7 +203,7 @@ class Facts:
         return c["v"]
 
     def closures_of(self, key):
-        return [b for b in self.fns.values() if b.raw.get("owner") == key]
+        return self._closures.get(key, [])
 
 
 _loaded = {}
